@@ -2,9 +2,10 @@ SPECIFICATION Spec
 CONSTANTS
   Pre = {"none", "cmt", "empty", "cempty"}
   Open = {"oa", "oattr", "ons", "sc"}
-  Content = {"none", "txt", "cdata", "nested", "selfnested"}
+  Content = {"none", "txt", "cdata", "nested", "selfnested", "emptytag"}
   Close = {"ca", "cns", "cb", "none"}
   Post = {"none", "sp", "elem2", "stray", "lt"}
+  CutWrapped = FALSE
 INVARIANTS BalancedWhenMatched StrayGoesNegative CutIsProperPrefix
 CONSTRAINT Emit
 CHECK_DEADLOCK FALSE
